@@ -1,0 +1,11 @@
+//go:build verif
+
+package deneb
+
+import "github.com/protolambda/zrnt/eth2/beacon/common"
+
+// VerifValidatorActivationChurnLimit is a read-only verification hook (build tag verif):
+// it exposes get_validator_activation_churn_limit to the /verif helpers harness (property C19).
+func VerifValidatorActivationChurnLimit(spec *common.Spec, phase0ChurnLimit uint64) uint64 {
+	return getValidatorActivationChurnLimit(spec, phase0ChurnLimit)
+}
